@@ -24,7 +24,7 @@ LEVEL = 'exploration'
 RULE = ('attack corpus generated from templates (external general/parameter entities over file/http/ftp, external DTD '
         'subsets, XInclude, internal entities, entity-expansion chains fan-out 2..10 x depth 2..9, quadratic blow-up, deep '
         'nesting, huge attribute counts) placed at every text and attribute position of valid requests for XmlDocument, '
-        'Soap11, Soap12 (default-constructed protocols) through ServerBase and WSGI; non-trivial = the child processed the '
+        'Soap11, Soap12 (default-constructed protocols) through ServerBase and WSGI, each also delivered under four other framings (XML declaration with an encoding, with and without a transport charset; ISO-8859-1; UTF-16 with BOM); non-trivial = the child processed the '
         'document under strace and its syscall segment was found; distinct by (protocol, driver, template, position, outcome).')
 ASSUMPTIONS = [
     'libxml2 in this sandbox is built without an HTTP/FTP client: a network fetch cannot happen even with unsafe options; the file/DTD canaries are the effective detectors, connect() is watched regardless',
@@ -143,11 +143,43 @@ def corpus(kind, spec, canary, dtd_path, port, rng):
     for meth, body in valid_requests(kind):
         docs.append({'template': 'control-valid', 'method': meth, 'pos': 'text', 'doc': body.replace('@@T0@@', '5'), 'bomb': False,
                      'forbidden_text': [], 'control': True})
+    # the same documents delivered differently: an XML declaration with its own encoding, with and without a transport charset,
+    # and other encodings - each combination may take another route to the parser
+    framed = []
+    keys = ('internal-entity', 'ext-general-file', 'ext-dtd-subset-file', 'ext-parameter-ref-file', 'xinclude-text', 'control-valid',
+            'bomb-chain-f10-d5', 'bomb-chain-f2-d9')
+    for d in docs:
+        if d['template'] in keys or (tier != 'quick' and not d['template'].startswith(('attr-flood', 'deep-nesting', 'bomb-quadratic'))):
+            for fr in FRAMINGS[1:]:
+                if tier == 'quick' and d['pos'] not in ('text', 'elem') and fr != 'decl-utf8':
+                    continue
+                framed.append(dict(d, framing=fr, template=d['template'] + '@' + fr))
+    docs += framed
     part, nparts = spec['part'], (1 if tier == 'quick' else 3)
     docs = [d for i, d in enumerate(docs) if i % nparts == part]
     for i, d in enumerate(docs):
         d['i'] = i
     return docs, repl
+
+
+FRAMINGS = ('plain', 'decl-utf8', 'decl-nocharset', 'decl-latin1', 'utf16-bom')
+
+
+def frame(kind, doc, framing):
+    """-> (request bytes, Content-Type, charset handed to generate_contexts)"""
+    base = {'xml': 'text/xml', 'soap11': 'text/xml', 'soap12': 'application/soap+xml'}[kind]
+    if framing in (None, 'plain'):
+        cs = None if kind == 'xml' else 'utf-8'
+        return doc.encode('utf8'), base + ('; charset=utf-8' if cs else ''), None
+    if framing == 'decl-utf8':
+        return ('<?xml version="1.0" encoding="UTF-8"?>' + doc).encode('utf8'), base + '; charset=utf-8', 'utf-8'
+    if framing == 'decl-nocharset':
+        return ('<?xml version="1.0" encoding="UTF-8"?>' + doc).encode('utf8'), base, None
+    if framing == 'decl-latin1':
+        return ('<?xml version="1.0" encoding="ISO-8859-1"?>' + doc).encode('latin-1', 'xmlcharrefreplace'), base + '; charset=iso-8859-1', 'iso-8859-1'
+    if framing == 'utf16-bom':
+        return ('<?xml version="1.0" encoding="UTF-16"?>' + doc).encode('utf-16'), base, None
+    raise KeyError(framing)
 
 
 # ------------------------------------------------------------------ child
@@ -201,9 +233,8 @@ def child_main(corpus_path, out_path):
         pass
     marker('selfcheck-end')
     results = []
-    ctype = {'xml': 'text/xml', 'soap11': 'text/xml; charset=utf-8', 'soap12': 'application/soap+xml; charset=utf-8'}[kind]
     for d in job['docs']:
-        body = d['doc'].encode('utf8')
+        body, ctype, charset = frame(kind, d['doc'], d.get('framing'))
         rec.reset()
         r = {'i': d['i']}
         ru0 = resource.getrusage(resource.RUSAGE_SELF)
@@ -219,7 +250,7 @@ def child_main(corpus_path, out_path):
                 if isinstance(w.exc, CpuBound):
                     r['cpu_bound'] = str(w.exc)
             else:
-                s = drive.drive_server(target, body)
+                s = drive.drive_server(target, body, charset)
                 r['body'] = (s.out or b'').decode('utf8', 'replace')
                 r['exc'] = repr(s.exc) if s.exc is not None else None
                 r['fault'] = s.error.faultcode if s.error is not None else None
